@@ -26,7 +26,9 @@ func buildCallGraph(statements []ast.Statement) callGraph {
 		callerName := decl.Name.Value
 		callees := extractCallees(decl.Block)
 		if len(callees) > 0 {
-			graph[callerName] = callees
+			// A subroutine may be declared more than once (Fastly concatenates the lifecycle
+			// subroutines), the calls of every declaration count whatever the declaration order
+			graph[callerName] = append(graph[callerName], callees...)
 		}
 	}
 
